@@ -646,7 +646,8 @@ leaves the iteration), and
 * no stop request was ever made on the output queue;
 * if `r` is a `StopIteration` then the output queue is exhausted and has NO recorded failure — now and in every later
   configuration (the invariant is over all reachable configurations): by producer counting every second-level task
-  is past its `_stop_enqueue`, so none can fail any more.
+  is past its `_stop_enqueue`, so none can fail any more;
+* if `r` is an error then a failure IS recorded in the output queue (the caller never sees an error out of nothing).
 Proof: the invariant `FS` of `Lemmas/Piter2Fail.lean` over all 16 step shapes; `Queue.stepThread_exc` (only
 `maybe_stop`, a failing `next(iterator)` and a timed-out `put` write `_exception` / `_stop_requested`),
 `stepThread_close` (a consumer arms `self.exception or StopIteration(*returned)` as evaluated AFTER `_set_exhausted()`),
@@ -658,11 +659,12 @@ theorem C13_two_caller_outcome {cap1 cap2 bm1 bm2 mw : Nat} {ns : Option Nat} {f
     (hend : t0.cpc = .shutdown ∨ t0.cpc = .fin) :
     c.s2.stopRequested = false ∧
     ∃ r, t0.iterOutcome = some r ∧ r ≠ Raise.empty ∧
-      (∀ rets, r = Raise.stop rets → c.s2.exc = none ∧ c.s2.exhausted = true) := by
+      (∀ rets, r = Raise.stop rets → c.s2.exc = none ∧ c.s2.exhausted = true) ∧
+      (∀ e, r = Raise.err e → c.s2.exc.isSome = true) := by
   have f := fs_reachable (good_initF cap1 cap2 bm1 bm2 mw ns fwd ff inputs gens)
     (fs_init cap1 cap2 bm1 bm2 mw ns fwd ff inputs gens) h t0 ht0 hearly
   obtain ⟨r, hr, ho⟩ := f.out hend
-  exact ⟨f.nostop, r, hr, ho.1, fun rets e => ho.2 (by rw [e]; rfl)⟩
+  exact ⟨f.nostop, r, hr, ho.1, fun rets e => ho.2.1 (by rw [e]; rfl), fun e' e => ho.2.2 (by rw [e]; rfl)⟩
 
 open MlModel.Queue (Raise) in
 /-- **a failure of the output queue surfaces, once, as a failure** (every schedule, every size; the second half of
@@ -683,7 +685,7 @@ theorem C13_two_failure_surfaces_once {cap1 cap2 bm1 bm2 mw : Nat} {ns : Option 
     rw [List.all_eq_true] at hdone
     have := hdone t0 (List.mem_of_getElem? ht0)
     simpa [Th.done, (g.inv.role0 0 t0 ht0).mpr rfl] using this
-  obtain ⟨-, r, hr, hne, hstop⟩ := C13_two_caller_outcome h ht0 hearly (.inr hfin)
+  obtain ⟨-, r, hr, hne, hstop, -⟩ := C13_two_caller_outcome h ht0 hearly (.inr hfin)
   cases r with
   | empty => exact absurd rfl hne
   | stop rets =>
@@ -701,7 +703,7 @@ theorem C13_two_stop_means_no_failure {cap1 cap2 bm1 bm2 mw : Nat} {ns : Option 
     {t0 : Th} (ht0 : c.ths[0]? = some t0) (hearly : t0.early = false)
     (hend : t0.cpc = .shutdown ∨ t0.cpc = .fin) {rets : List Nat} (hout : t0.iterOutcome = some (Raise.stop rets)) :
     c.s2.exc = none ∧ c.s2.stopRequested = false ∧ c.s2.exhausted = true := by
-  obtain ⟨hns, r, hr, -, hstop⟩ := C13_two_caller_outcome h ht0 hearly hend
+  obtain ⟨hns, r, hr, -, hstop, -⟩ := C13_two_caller_outcome h ht0 hearly hend
   rw [hout] at hr
   obtain rfl := Option.some.inj hr
   exact ⟨(hstop rets rfl).1, hns, (hstop rets rfl).2⟩
@@ -738,5 +740,47 @@ example : ∃ c t0, Reachable (Piter.evalFn .ident none)
   simp only [Prod.mk.injEq, Option.map_eq_some_iff] at hc
   obtain ⟨h1, ⟨t0, ht0, h2⟩, h3, h4⟩ := hc
   exact ⟨c, t0, reachable_run _ _ _ hr, h1, ht0, h2, h3, h4⟩
+
+/-- **without `num_steps` the caller never stops early and the output queue is never stopped** (every schedule,
+every size, failures included) — the first of the clean-run hypotheses of `C13_two_multiset` DERIVED FROM THE INPUTS:
+for `num_steps = None`, in every reachable configuration the caller's `early` flag is unset and no stop request was
+made on the output queue (only `DequeueIterator.__next__` reaching `num_steps` calls `Q2.maybe_stop()`). -/
+theorem C13_two_no_early_stop {cap1 cap2 bm1 bm2 mw : Nat} {fwd ff : Bool}
+    {inputs : List InSpec} {gens : List Nat} {c : Piter2.Cfg}
+    (h : Reachable F (initF cap1 cap2 bm1 bm2 mw none fwd ff inputs gens) c)
+    {t0 : Th} (ht0 : c.ths[0]? = some t0) : t0.early = false ∧ c.s2.stopRequested = false := by
+  have he := early_reachable h t0 ht0
+  exact ⟨he, (fs_reachable (good_initF cap1 cap2 bm1 bm2 mw none fwd ff inputs gens)
+    (fs_init cap1 cap2 bm1 bm2 mw none fwd ff inputs gens) h t0 ht0 he).nostop⟩
+
+/-- `C13_two_multiset` for `num_steps = None` with two of its hypotheses discharged (`early = false`, no stop request on
+the output queue): in a reachable final configuration in which no exception is recorded in either queue and the input
+queue was not stopped, the delivered values are a permutation of `iterator_fn` over all input values.
+Still `_partial` with respect to "for clean inputs": `Q1._exception = Q2._exception = None` and "no upstream stop" are
+hypotheses on the final configuration, not yet derived from `no Item.fail` / `F` total on the input values (the
+failure theorems above give the other direction: a recorded `Q2` failure always surfaces). -/
+theorem C13_two_multiset_no_num_steps_partial {cap1 cap2 bm1 bm2 mw : Nat} {fwd ff : Bool}
+    {inputs : List InSpec} {gens : List Nat} {c : Piter2.Cfg} (hgen : gens ≠ [])
+    (h : Reachable F (initF cap1 cap2 bm1 bm2 mw none fwd ff inputs gens) c) (hdone : c.allDone = true)
+    (hexc1 : c.s1.exc = none) (hstop1 : c.s1.stopRequested = false) (hexc2 : c.s2.exc = none)
+    {t0 : Th} (ht0 : c.ths[0]? = some t0) :
+    List.Perm (t0.b.received.map (·.2)) ((inputs.flatMap fun i => valsOf i.items).flatMap (Fp F)) ∧
+    (∃ rets, t0.iterOutcome = some (Queue.Raise.stop rets)) := by
+  obtain ⟨he, hs2⟩ := C13_two_no_early_stop h ht0
+  refine ⟨(C13_two_multiset hgen h hdone hexc1 hstop1 hexc2 hs2 ht0 he).1, ?_⟩
+  have g := good_reachable (good_initF cap1 cap2 bm1 bm2 mw none fwd ff inputs gens) h
+  have hfin : t0.cpc = .fin := by
+    unfold Piter2.Cfg.allDone at hdone
+    rw [List.all_eq_true] at hdone
+    have := hdone t0 (List.mem_of_getElem? ht0)
+    simpa [Th.done, (g.inv.role0 0 t0 ht0).mpr rfl] using this
+  obtain ⟨-, r, hr, hne, -, herr⟩ := C13_two_caller_outcome h ht0 he (.inr hfin)
+  cases r with
+  | empty => exact absurd rfl hne
+  | stop rets => exact ⟨rets, hr⟩
+  | err e =>
+    -- an error in the caller's hand means `Q2._exception` is set
+    have := herr e rfl
+    rw [hexc2] at this; cases this
 
 end MlModel.C13
